@@ -231,7 +231,8 @@ impl Scheduler {
         let tracker_data_req = tracker.get_data_requests();
         let mut uniq = HashSet::with_capacity(tracker_data_req.len());
 
-        let all_uniq = tracker_data_req.iter().all(|x| uniq.insert(x.filter_idx));
+        // one request per subscription: `t` and `$share/g/t` are two subscriptions on one filter_idx
+        let all_uniq = tracker_data_req.iter().all(|x| uniq.insert(&x.filter));
 
         if !all_uniq {
             Some(&tracker.data_requests)
